@@ -26,12 +26,18 @@ STUBS = ["np -> vf.npmodel array model (validated in lock-step against numpy)",
 ASSUMPTIONS = ["V: documented scenario format (symmetric reflexive topology, >=1 public subnet, one OS and >=1 service per host)",
                "pre-state: any tensor satisfying Inv (proved inductive here), so histories of any length are covered",
                "scenarios larger than the stated shapes are outside the claim (small-scope hypothesis)"]
-BOUNDS = dict(quick="shapes [1,1],[2,1],[1,1,1] (subnet sizes without internet), S=2,O=2,P=1; targets first/last host",
+BOUNDS = dict(quick="shapes [1,1],[2,1],[1,1,1] (subnet sizes without internet), S=2,O=2,P=1; targets first/last host; plus [1,1,1,1] with S=O=P=1, no host firewalls, exploit and subnet scan on (2,0)",
               thorough="adds [1,2],[2,1,1], P=2, every target / service / process / OS name")
 
 
 def queries(tier, seed=0):
     qs = dyn.base_queries(tier, level='net')
+    # reachability / discovery follow the topology only: a deeper shape (four subnets, so two
+    # branches joined by a cross link exist) with the smallest name sets and no host firewalls
+    deep = Shape([1, 1, 1, 1], 1, 1, 1).to_json()
+    for kind, nm in (('exploit', 's0'), ('subnet_scan', None)):
+        for t in ([[2, 0]] if tier == 'quick' else [[1, 0], [2, 0], [4, 0]]):
+            qs.append(dict(shape=deep, kind=kind, target=t, name=nm, os=None, level='net', host_fw=False))
     shapes = {}
     for q in qs:
         shapes[str(q['shape'])] = q['shape']
@@ -76,7 +82,7 @@ def obligations(r):
         return obl
     st, post, A, step = r.st, r.post, r.A, r.step
     succ = r.res['success']
-    obl.append(('inv_preserved', scen.inv(w, post)))
+    obl.append(('inv_preserved', scen.inv(w, scen.post_ranks(w, st, post))))
     t = A.target
     # discovery only through a successful subnet scan run on a compromised host
     for a in w.addrs:
